@@ -266,8 +266,20 @@ func TestVerifC19(t *testing.T) {
 			err := open(w)
 			spec.w = w
 			spec.filter()
-			if spec.hasLast && w != 0 && spec.last > w {
+			if err == nil && spec.hasLast && w != 0 && spec.last > w {
 				spec.stragglers[spec.last-w] = true
+				// the known findings say "until the next restart": whatever is still below last-window
+				// after a startup cleanup is no longer explained by them
+				for x := range spec.belowGap {
+					if x < spec.last-w {
+						delete(spec.belowGap, x)
+					}
+				}
+				for x := range spec.oow {
+					if x < spec.last-w {
+						delete(spec.oow, x)
+					}
+				}
 			}
 			check(l, err, false, false)
 			r.Count("restart")
@@ -429,6 +441,18 @@ func c19Generate(r *verifh.Run) []string {
 	}
 	add("accept 21 0")
 	add("restart 2")
+	// restart, backfill below the window, restart again: the second startup cleanup must prune it
+	add("new 2")
+	for h := 0; h <= 6; h++ {
+		add("accept %d 0", h)
+	}
+	add("restart 2")
+	add("save 1 0")
+	add("save 2 0")
+	add("save 3 0")
+	add("restart 2")
+	add("accept 7 0")
+	add("restart 3")
 	// the suite's cleanup scenario: saves before any accept
 	add("new 5")
 	for h := 7; h >= 0; h-- {
